@@ -35,7 +35,7 @@ S.max_failures_per_item = 200
 _SITE = "graphiq.solvers.alternate_target_solver:AlternateTargetSolver.solve"
 
 METHODS = [None, "lc_with_iso", "random", "random_with_iso", "random_with_rep", "depth_first", "linear", "rgs"]
-CLAUSES = ("returns", "circuit", "orbit", "distinct")
+CLAUSES = ("returns", "circuit", "orbit", "distinct", "frame")
 
 
 def _A(a):
@@ -115,12 +115,68 @@ def _circuit_check(circ, T, perm, tag):
     return None
 
 
-def _solve(A, setting, seed):
-    solver = AlternateTargetSolver(target=nx.from_numpy_array(A.copy()), solver_setting=setting, seed=seed)
+FORMS = ("graph_np", "graph_np_float", "graph_plain", "qs_g", "qs_s", "qs_dm")
+
+
+def _make_target(A, form):
+    """the target handed to the solver: the same labelled graph state, constructed in different ways (vertex i = row i of A)"""
+    from graphiq.state import QuantumState
+
+    n = len(A)
+    if form == "graph_np":
+        return nx.from_numpy_array(A.copy())  # edges carry integer 'weight' attributes
+    if form == "graph_np_float":
+        return nx.from_numpy_array(A.astype(float))
+    g = nx.Graph()
+    g.add_nodes_from(range(n))
+    g.add_edges_from([(i, j) for i in range(n) for j in range(i + 1, n) if A[i, j]])  # no edge attributes
+    if form == "graph_plain":
+        return g
+    if form == "qs_g":
+        return QuantumState(g, rep_type="g")
+    if form == "qs_s":
+        from graphiq.backends.stabilizer.clifford_tableau import CliffordTableau
+
+        table = np.zeros((2 * n, 2 * n), dtype=int)  # destabilizers Z_i, stabilizers K_i = X_i Z_N(i), built by hand
+        table[:n, n:] = np.eye(n, dtype=int)
+        table[n:, :n] = np.eye(n, dtype=int)
+        table[n:, n:] = A
+        return QuantumState(CliffordTableau(table, np.zeros(2 * n, dtype=int)), rep_type="s")
+    if form == "qs_dm":
+        return QuantumState(np.array(R.dm(R.graph_state(A))), rep_type="dm")
+    raise ValueError(form)
+
+
+def _snapshot(target):
+    """a value that determines the caller's target object (for a networkx graph: nodes in order, edges, edge attributes;
+    graphiq's graph representation adopts the caller's graph and annotates its NODES with an 'LC' attribute - node
+    attributes are therefore not part of the frame)"""
+    if isinstance(target, nx.Graph):
+        return ("graph", list(target.nodes), sorted((min(u, v), max(u, v), repr(sorted(d.items()))) for u, v, d in target.edges(data=True)))
+    rep = target.rep_type
+    data = target.rep_data.data
+    if rep == "g":
+        gd = data if isinstance(data, nx.Graph) else data.data
+        nodes = sorted(repr(u) for u in gd.nodes)
+        edges = sorted(repr(tuple(sorted((repr(u), repr(v))))) for u, v in gd.edges)
+        return ("qs", rep, nodes, edges)
+    if rep == "s":
+        return ("qs", rep, np.array(data.table).tolist(), np.array(data.phase).tolist())
+    return ("qs", rep, np.round(np.array(data), 9).tolist())
+
+
+def _solve(A, setting, seed, form="graph_np", twice=False):
+    target = _make_target(A, form)
+    before = _snapshot(target)
+    solver = AlternateTargetSolver(target=target, solver_setting=setting, seed=seed)
     np.random.seed(0 if seed is None else seed)  # the "random*" orbit methods draw from the global numpy generator
     with warnings.catch_warnings():
         warnings.simplefilter("ignore")
         out = solver.solve()
+        if twice:  # the same solver object once more: the second answer must be just as good
+            np.random.seed(0 if seed is None else seed)
+            out = solver.solve()
+    solver._verif_frame = None if _snapshot(target) == before else f"the target object handed to the solver ({form}) was modified"
     return solver, out
 
 
@@ -136,6 +192,7 @@ def _judge(A, solver, out):
             return res
         entries.append((e[0], e[1]["g"], e[1]["map"]))
     res.update(_entry_checks(A, entries, "returned list"))
+    res["frame"] = getattr(solver, "_verif_frame", None)
     # the same claims hold for solver.result
     sr = solver.result
     try:
@@ -162,12 +219,14 @@ def _evaluate(inp):
             setting = AlternateTargetSolverSetting() if how == "setting-object" else None
             method, n_iso = "default", (10 if how == "setting-object" else 1)
         else:
-            a, method, n_iso, n_lc, seed, sort_emit, depth = inp
+            a, method, n_iso, n_lc, seed, sort_emit, depth = inp[:7]
+            extra = dict(inp[7]) if len(inp) > 7 else {}
+            form, twice = extra.pop("form", "graph_np"), bool(extra.pop("twice", False))
             A = _A(a)
             setting = AlternateTargetSolverSetting(n_iso_graphs=n_iso, n_lc_graphs=n_lc, lc_method=method, sort_emit=bool(sort_emit),
-                                                   lc_orbit_depth=depth)
+                                                   lc_orbit_depth=depth, **extra)  # extra: further constructor options (label_map, ...)
         try:
-            solver, out = _solve(A, setting, seed)
+            solver, out = _solve(A, setting, seed, form, twice) if len(inp) != 3 else _solve(A, setting, seed)
         except AssertionError as e:
             msg = str(e)
             if "more than the maximum possible" in msg and n_iso > math.factorial(len(A)):
@@ -211,7 +270,12 @@ def _prefill(inputs):
 _BOUND = ("fixed list, seed-independent (touches known finding KF-C10-1 through the single-vertex target): ALL 43 connected labelled graphs on 2..4 vertices (+ the single vertex once) x 8 lc_method values (None, lc_with_iso, random, random_with_iso, random_with_rep, "
           "depth_first, linear, rgs) x (n_iso,n_lc) in {(1,1),(2,3),(3,2)} (quick) / {1,2,3}^2 (thorough), seed 1; + connected graphs on 5 "
           "vertices (quick: one per isomorphism class = 21, thorough: all 728) x 8 methods x (2,2); + seeds {0,2,None}, "
-          "sort_emit False, lc_orbit_depth 1, n_iso above n! on a fixed sub-list; paths / repeater graphs for the two scripted methods")
+          "sort_emit False, lc_orbit_depth 1, n_iso above n! on a fixed sub-list; paths / repeater graphs for the two scripted methods"
+          "; HARDENING (fixed): every 2nd connected 4-vertex graph x target given as nx.Graph without edge attributes / from a float matrix / "
+          "QuantumState in graph, stabilizer (hand-built CliffordTableau) and density-matrix form x lc_method in {None, random_with_rep} x "
+          "(n_iso,n_lc)=(3,2); 12 graphs on 5..6 vertices (7 five-vertex classes, C6, K_{3,3}, prism, S6, P6) x 6 orbit methods x n_iso=4, "
+          "n_lc=3, sort_emit on/off alternating, lc_orbit_depth in {None,2,3}; solve() called twice on one solver object (10 inputs); "
+          "constructor options label_map / allow_exhaustive / rel_inc_thresh / iso_thresh on {P4, C5, K4, S5} x n_iso in {2, 8} (label_map also 20; former finding KF-C10-3, repaired by 706ab41)")
 
 
 @S.item("solve.returns", site=_SITE, bound=_BOUND, exhaustive=True,
@@ -237,6 +301,12 @@ def c_distinct(inp):
     return _clause(inp, "distinct")
 
 
+@S.item("solve.target_unchanged", site=_SITE, bound=_BOUND, exhaustive=True,
+        clause="(frame) the caller's target - networkx graph (nodes, edges, edge attributes) or QuantumState (representation and data) - is what it was before the call")
+def c_frame(inp):
+    return _clause(inp, "frame")
+
+
 @S.item("solve.default_setting", site="graphiq.solvers.alternate_target_solver:AlternateTargetSolverSetting.__init__",
         bound="fixed list: default settings (AlternateTargetSolverSetting() and solver_setting=None) x {path P4, star K1,3, cycle C4, complete K4, path P5, cycle C5} x seed 1",
         exhaustive=True, clause="... every accepted solver setting, including the default one (all clauses judged on the result)")
@@ -255,6 +325,41 @@ def _iso_classes(graphs):
         if not any(L.find_isomorphism(B, A) is not None for B in reps):
             reps.append(A)
     return reps
+
+
+def hardening_inputs(conn):
+    """FIXED list (the same in both tiers, independent of the run seed); 8th field = {"form": ..., "twice": ..., constructor options}"""
+    from refsem import cutrank as CR
+
+    out = []
+    # H5: the same target constructed differently
+    for k, A in enumerate([A.tolist() for A in conn[4]][::2]):
+        for form in FORMS[1:]:
+            for m in (None, "random_with_rep"):
+                out.append([A, m, 3, 2, 1 + k % 2, True, None, {"form": form}])
+    # H6: more isomorphs, every orbit method, sort_emit on/off, deeper orbits, on 5..6 vertices
+    five = [A.tolist() for A in _iso_classes(conn[5])][::3]
+    six = [CR.cycle(6), CR.complete_bipartite(3, 3), CR.prism(), [[1 if (i == 0) != (j == 0) and 0 in (i, j) else 0 for j in range(6)] for i in range(6)],
+           L.path_graph(6).tolist()]
+    methods = [None, "lc_with_iso", "random", "random_with_iso", "random_with_rep", "depth_first"]
+    for k, A in enumerate(five + six):
+        for j, m in enumerate(methods):
+            out.append([A, m, 4, 3, (k + j) % 3, (k + j) % 2 == 0, (None, 2, 3)[(k + j) % 3], {"form": FORMS[(k + j) % 2 * 2]}])
+    # H1: the same solver object asked twice
+    for k, A in enumerate([A.tolist() for A in conn[4]][1::8] + five[:5]):
+        out.append([A, methods[k % len(methods)], 3, 2, k % 2, True, None, {"form": FORMS[k % len(FORMS)], "twice": True}])
+    # H6: further constructor options
+    def cyc(n):
+        return CR.cycle(n)
+
+    star5 = [[1 if (i == 0) != (j == 0) and 0 in (i, j) else 0 for j in range(5)] for i in range(5)]
+    k4 = [[int(i != j) for j in range(4)] for i in range(4)]
+    for A in (L.path_graph(4).tolist(), cyc(5), k4, star5):
+        for n_iso in (2, 8):
+            for opt in ({"label_map": True}, {"allow_exhaustive": True}, {"rel_inc_thresh": 0.9}, {"iso_thresh": 3}):
+                out.append([A, None, n_iso, 2, 1, True, None, dict(opt, form="graph_np")])
+        out.append([A, None, 20, 2, 1, True, None, {"label_map": True, "form": "graph_np"}])
+    return out
 
 
 def run(tier, seed):
@@ -288,6 +393,7 @@ def run(tier, seed):
     for F in fam:
         for m in ("linear", "rgs", None):
             inputs.append([F.tolist(), m, 2, 4, 1, True, None])
+    inputs += hardening_inputs(conn)
     seen = set()
     uniq = []
     for i in inputs:
@@ -313,7 +419,7 @@ def run(tier, seed):
     dt = _prefill(inputs + defaults)
     nontrivial = lambda i: len(i[0]) >= 3 and (i[2] > 1 or i[3] > 1)  # noqa: E731
     for name in ("solve.returns", "solve.circuit_generates_relabelled_target", "solve.graph_in_orbit_of_relabelled_target",
-                 "solve.no_duplicate_graphs"):
+                 "solve.no_duplicate_graphs", "solve.target_unchanged"):
         S.map(name, inputs, nontrivial=nontrivial, procs=1)
     S.map("solve.default_setting", defaults, procs=1)
     S.items["solve.returns"].wall_s += dt  # the shared solver calls
